@@ -210,6 +210,15 @@ func cmdC17(args []string) error {
 			for _, i := range wl {
 				m[i] = true
 			}
+			// the whitelist is a map[int64]bool: the same subset may be written with explicit false entries for
+			// files that are NOT selected (a caller filling the map with wl[i] = needsPatching(i))
+			if (si+k)%2 == 1 && len(d.Source.Files) <= 64 {
+				for i := range d.Source.Files {
+					if !m[int64(i)] {
+						m[int64(i)] = false
+					}
+				}
+			}
 			rb := &recBowl{}
 			rp := &recPool{}
 			ar := realApplyPatch(patch, applyOpts{Bowl: "fresh", OldDir: oldDir, OutDir: outDir, Whitelist: m,
